@@ -19,6 +19,13 @@ import LitexProofs.Wishbone.InterconnectSoc
     `s.grant < c.n`             holds in every reachable state (`wb_owner_is_master`).
   The `Timeout` module is part of the model (`c.timeout`); where it can interfere the statements carry the
   explicit term `Shared.done c s` (its theorems are C11's).
+
+  SoC glue (sections at the end): `busTopology`/`SocBus` (which fabric `do_finalize` builds), `checkRegionsOverlap`
+  (= `SoCBusHandler.check_regions_overlap` as computed, over `size_pow2`), `glueRun`/`glueBuild` (whole build scripts
+  through C13's handler model, imported read-only) and `SocRBus` (remappers of `add_master(region=…)`).  There the
+  `DisjointDec` hypothesis is DISCHARGED for every bus the glue accepts (`soc_accepted_disjoint_decoders_partial`,
+  `glue_history_disjoint_decoders_partial`, via C13's `LitexProofs/Soc/AcceptedDisjoint.lean`), and a restricted
+  master is shown to stay inside its region (`soc_remapped_master_confined`).
 -/
 namespace Litex.C06
 open Litex Litex.Wishbone
@@ -946,6 +953,55 @@ theorem soc_route_one_slave_partial (c : SocCfg) (rs : List Region) (sh : Nat)
     rw [← hown] at h2
     exact hd (x.ms (Crossbar.grant s' j)).adr j k hj hk (by simp [hin, h1.2]) (by simp [hin, h2.2])
 
+/-- **Buses built through `SoCBusHandler`** (any build script: explicit and auto-allocated origins, IO regions,
+    linker regions, any registration order): when every call and `do_finalize` are accepted, the decoders handed to
+    `InterconnectShared`/`Crossbar` satisfy `DisjointDec` on the bus's address range.  This discharges the
+    `disjoint decoders` hypothesis of `wb_route_one_slave`, `wb_answer_selected`, `wb_one_termination`, `xb_*` for
+    every bus the glue can build.  FULL STATEMENT (fails, witnesses above and in C13): without `hgood`.
+    `_partial`: no slave sits on a linker region (`check_regions_overlap` skips those), regions are decoded
+    (`decode=True`; the scripts cannot say otherwise) and at least one bus word (C13-decoder-subword). -/
+theorem glue_history_disjoint_decoders_partial (dw aw sh : Nat) (ops : List GlueOp) (s : BusH Nat)
+    (kind : BusKind) (reg : Bool) (timeout : Option Nat)
+    (hrun : glueRun { aw := aw, dw := dw } 0 ops = .inr s) (hfin : s.finalize = .ok ()) (hm : s.masters ≠ [])
+    (hdw : dw / 8 = 2 ^ sh) (hsh : sh ≤ aw)
+    (hgood : ∀ p ∈ s.slaveRegions, p.2.linker = false ∧ p.2.decode = true ∧ dw / 8 ≤ p.2.p2) :
+    DisjointDec (socOfBus s kind reg timeout).m
+      (fun j a => decide (a < 2 ^ (aw - sh)) && (socOfBus s kind reg timeout).dec j a) := by
+  have hi : BusH.Inv s := glueRun_inv ops _ 0 s (BusH.inv_init aw dw) hrun
+  obtain ⟨haw, hdw'⟩ := glueRun_widths ops _ 0 s hrun
+  simp only at haw hdw'
+  have hr : (socOfBus s kind reg timeout).regions = pairsOf (s.slaveRegions.map (·.2)) := by
+    simp [socOfBus, pairsOf, List.map_map, Function.comp_def]
+  have hcaw : (socOfBus s kind reg timeout).aw = aw := haw
+  have hcdw : (socOfBus s kind reg timeout).dw = dw := hdw'
+  intro a j k hj hk h1 h2
+  have hmlen : (socOfBus s kind reg timeout).m = s.slaveRegions.length := by simp [SocCfg.m, socOfBus]
+  by_cases hp : s.isP2P = true
+  · -- point to point: a single slave
+    have h1s : s.slaves.length = 1 := by
+      unfold BusH.isP2P at hp
+      simp only [Bool.and_eq_true, beq_iff_eq] at hp
+      exact hp.1.2
+    have : s.slaveRegions.length ≤ 1 := by
+      unfold BusH.slaveRegions
+      exact Nat.le_trans (List.length_filterMap_le _ _) (Nat.le_of_eq h1s)
+    omega
+  · have hs : s.slaves ≠ [] := by
+      intro hnil
+      have : s.slaveRegions = [] := by simp [BusH.slaveRegions, hnil]
+      rw [hmlen, this] at hj
+      simp at hj
+    have hal := (BusH.finalize_ok_aligned hfin hm hs (by simpa using hp)).2
+    have hall : RegionsDecodable (socOfBus s kind reg timeout).dw (s.slaveRegions.map (·.2)) := by
+      intro r hrm
+      obtain ⟨p, hpm, rfl⟩ := List.mem_map.1 hrm
+      obtain ⟨g1, g2, g3⟩ := hgood p hpm
+      exact ⟨g1, g2, hal p hpm, by rw [hcdw]; exact g3⟩
+    have := soc_accepted_disjoint_decoders_partial (socOfBus s kind reg timeout) (s.slaveRegions.map (·.2)) sh hr
+      (by rw [hcdw]; exact hdw) (by rw [hcaw]; exact hsh) (slaveRegions_accepted hi) hall
+    rw [hcaw] at this
+    exact this a j k hj hk h1 h2
+
 end GlueThms
 
 /-! ### Witnesses for the address-map glue -/
@@ -1010,6 +1066,17 @@ example :
   constructor
   · decide +kernel
   · decide +kernel
+
+/-- Non-vacuity of `glue_history_disjoint_decoders_partial`: the script "two masters, 12 KiB slave at 0, auto-allocated
+    4 KiB slave, auto-allocated 6 KiB slave" is accepted, finalizes, meets `hgood`, and yields the regions
+    `[0,+0x3000) [0x4000,+0x1000) [0x6000,+0x1800)` (the allocator steps over the rounding gap). -/
+example :
+    (match glueRun { aw := 32, dw := 32 } 0
+        [.master, .master, .slave (some 0) 0x3000 true false, .slave none 0x1000 true false, .slave none 0x1800 true false] with
+     | .inr s => (match s.finalize with | .ok _ => true | .error _ => false) && !s.masters.isEmpty &&
+         s.slaveRegions.all (fun p => !p.2.linker && p.2.decode && decide (32 / 8 ≤ p.2.p2)) &&
+         decide ((socOfBus s .shared true none).regions = [(0, 0x3000), (0x4000, 0x1000), (0x6000, 0x1800)])
+     | .inl _ => false) = true := by decide +kernel
 
 end GlueExamples
 
